@@ -708,6 +708,12 @@ def drive_with(case, work):
             return ws.root
         return iofix.locate(ws, label)
 
+    def note(e, **fields):
+        """ledger entry for an edit of an existing entity: only when the entity is on file or already expected there (an entity
+        created unsaved on a read-only handle never reaches the file; editing it is a memory-only matter)"""
+        if str(e.uid) in exp or getattr(e, "on_file", False):
+            exp.setdefault(str(e.uid), {"exists": True}).update(fields)
+
     def sem(ws, op):
         """returns (thunk, commit) -- commit() records the effect of the completed operation in the ledger"""
         k = op["op"]
@@ -759,13 +765,13 @@ def drive_with(case, work):
             e = ent_of(ws, op["ent"])
             if e is None:
                 return None, None
-            return (lambda: setattr(e, "name", op["name"])), (lambda: exp.setdefault(str(e.uid), {"exists": True}).update(name=op["name"]))
+            return (lambda: setattr(e, "name", op["name"])), (lambda: note(e, name=op["name"]))
         if k == "set_vertices":
             o = ent_of(ws, op["obj"])
             if o is None:
                 return None, None
             verts = _tok_vertices(op["tok"], o.n_vertices)
-            return (lambda: setattr(o, "vertices", verts)), (lambda: exp.setdefault(str(o.uid), {"exists": True}).update(vertices=verts.tolist()))
+            return (lambda: setattr(o, "vertices", verts)), (lambda: note(o, vertices=verts.tolist()))
         if k == "set_values":
             d = names.get(f"{op['obj']}/{op['data']}")
             if d is None:
@@ -774,17 +780,17 @@ def drive_with(case, work):
             if d is None:
                 return None, None
             vals = np.arange(len(d.values)) * 1.0 + op["tok"]
-            return (lambda: setattr(d, "values", vals)), (lambda: exp.setdefault(str(d.uid), {"exists": True}).update(values=vals.tolist()))
+            return (lambda: setattr(d, "values", vals)), (lambda: note(d, values=vals.tolist()))
         if k == "metadata":
             e = ent_of(ws, op["ent"])
             if e is None:
                 return None, None
-            return (lambda: setattr(e, "metadata", dict(op["val"]))), (lambda: exp.setdefault(str(e.uid), {"exists": True}).update(metadata=dict(op["val"])))
+            return (lambda: setattr(e, "metadata", dict(op["val"]))), (lambda: note(e, metadata=dict(op["val"])))
         if k == "move":
             e, q = ent_of(ws, op["ent"]), ent_of(ws, op["to"])
             if e is None or q is None:
                 return None, None
-            return (lambda: setattr(e, "parent", q)), (lambda: exp.setdefault(str(e.uid), {"exists": True}).update(parent=str(q.uid)))
+            return (lambda: setattr(e, "parent", q)), (lambda: note(e, parent=str(q.uid)))
         if k == "copy":
             e = ent_of(ws, op["ent"])
             if e is None:
@@ -999,9 +1005,8 @@ def _op_term_with(op, rec):
             err = "(Some EFail)"
         return f"(FetchActive {K.MODES[op['mode']]} {cs})", err
     cs = K.c_calls_rp(rec, calls)
-    if own_fail:
-        cs = cs[:-1] + ("; " if cs != "[]" else "") + PY_FAIL + "]"
-        err = "(Some EFail)"
+    if own_fail:      # the operation's own Python code raised after (or without) its _io_call's -- also on a closed workspace
+        return f"(CallsThenRaise {cs})", "(Some EFail)"
     return f"(Calls {cs})", err
 
 
